@@ -48,7 +48,7 @@ json.dump({"property":"$ID","demo_file":"$DEMO","demo_unchanged_rc":$R0,"demo_ch
  "check_cmd":"VERIF_REPO=<worktree with patch> ./check $ID","check_rc":$RC,
  "check_output":[l.rstrip() for l in open("/tmp/seed-$ID.check") if l.startswith(("VIOLATION","#   ","INCONCLUSIVE","BROKEN","$ID tier"))][:20],
  "other_checks": "$EXTRA_RES".split("  ") if "$EXTRA_RES".strip() else [],
- "valid": ($R0==0 and $R1!=0 and $R2==0), "detected": $RC==1 or ":rc=1:" in "$EXTRA_RES"}, open("$OUT/meta.json","w"), indent=1)
+ "valid": ($R0==0 and $R1!=0 and $R2==0), "detected": ($RC==1 and any(l.startswith("VIOLATION") for l in open("/tmp/seed-$ID.check"))) or ":rc=1:" in "$EXTRA_RES"}, open("$OUT/meta.json","w"), indent=1)
 PY
 git -C /repo worktree remove --force $V
 rm -f /tmp/seed-$ID.demo /tmp/seed-$ID.check
